@@ -3,13 +3,17 @@
    nat stay extracted inductives. No Extract Constant / Extract Inductive of our own. *)
 From Coq Require Extraction.
 From Coq Require Import ExtrOcamlBasic.
-From RN Require Import Base.Bytes Model.Edits Model.Serde Model.StyleDef Model.CaseModel Gen.GenStyles Gen.GenAcronyms Model.Fs Model.ApplyModel Model.UndoModel Model.Patch Model.Lock.
+From RN Require Import Base.Bytes Model.Edits Model.Serde Model.StyleDef Model.CaseModel Gen.GenStyles Gen.GenAcronyms Model.Fs Model.ApplyModel Model.UndoModel Model.Patch Model.Lock Model.History.
+
+(* uniquely named entry points where two models use the same short name *)
+Definition hist_step := History.step.
 
 Extraction Language OCaml.
 Extraction "model.ml"
   apply_edits_rev spec_splice wf_edits
   enc_plan dec_plan
   parse_to_tokens tokens to_style detect_style variant_map_core variant_map_scanner vmap_to_amap
+  hist_step History.h_init History.implied_tree
   Lock.exec1 Lock.init Lock.in_critical Lock.holders
   undo_core undo_steps rewrite_headers rewrite_headers_old diffy_body split_lines
   apply_core spec_apply no_fault one_fault user_view fs_eqb sort_renames final_path
